@@ -61,11 +61,11 @@ func c19Err(err error) string {
 	}
 }
 
-func c19Dump(db database.Database) (string, int) {
+func c19Dump(db database.Database) (string, []uint64) {
 	it := db.NewIterator()
 	defer it.Release()
 	var sb strings.Builder
-	nonGenesis := 0
+	var nonGenesis []uint64
 	for it.Next() {
 		if sb.Len() > 0 {
 			sb.WriteByte(' ')
@@ -75,11 +75,11 @@ func c19Dump(db database.Database) (string, int) {
 		sb.WriteByte('=')
 		sb.WriteString(verifh.Hex(it.Value()))
 		if len(k) == 9 && k[0] == blockHeightIDPrefix && binary.BigEndian.Uint64(k[1:]) != 0 {
-			nonGenesis++
+			nonGenesis = append(nonGenesis, binary.BigEndian.Uint64(k[1:]))
 		}
 	}
 	if sb.Len() == 0 {
-		return "empty", 0
+		return "empty", nil
 	}
 	return sb.String(), nonGenesis
 }
@@ -94,6 +94,11 @@ type c19Spec struct {
 	coherent bool
 	gapSeen  bool // an accept that was not at last+1 (or a first accept onto stored blocks)
 	oowSave  bool // a historical save outside the current window (or before any accept, or above last)
+	// per stored height, why the unchanged code may legitimately (known findings) still hold it
+	belowGap   map[uint64]bool // written before a later accept that was not at last+1
+	oow        map[uint64]bool // last written by a historical save outside the window
+	stragglers map[uint64]bool // last-window at some restart (kept by cleanupOnStartup, allowed by the bound)
+	written    map[uint64]bool
 	stored   bool // anything was ever written
 }
 
@@ -194,15 +199,34 @@ func TestVerifC19(t *testing.T) {
 			}
 		}
 		// (5) no more than window+1 non-genesis blocks (window 0 = keep everything, by design)
-		if spec.w != 0 && spec.w != math.MaxUint64 && uint64(nonGenesis) > spec.w+1 {
+		if spec.w != 0 && spec.w != math.MaxUint64 && uint64(len(nonGenesis)) > spec.w+1 {
+			// classify by the surplus blocks themselves: every retained block outside the window must be
+			// one the known defects explain (written before a non-consecutive accept / saved outside the
+			// window) or the one straggler a restart keeps; anything else is a new violation
+			gap, oow, unexplained := 0, 0, 0
+			for _, x := range nonGenesis {
+				if spec.hasLast && x <= spec.last && c19InWindow(spec.w, true, spec.last, x) {
+					continue
+				}
+				switch {
+				case spec.belowGap[x]:
+					gap++
+				case spec.oow[x]:
+					oow++
+				case spec.stragglers[x]:
+				default:
+					unexplained++
+				}
+			}
 			key := "retention-exceeds-window"
 			switch {
-			case spec.gapSeen:
+			case unexplained > 0 || gap+oow == 0:
+			case gap > 0:
 				key = "retention-exceeds-window-after-gap"
-			case spec.oowSave:
+			default:
 				key = "retention-exceeds-window-after-out-of-window-save"
 			}
-			r.Violation(key, "%d non-genesis blocks retained, window %d (seq %d, %s)", nonGenesis, spec.w, seq, op)
+			r.Violation(key, "%d non-genesis blocks retained, window %d: outside the window %d written before a non-consecutive accept, %d saved out of window, %d unexplained (seq %d, %s)", len(nonGenesis), spec.w, gap, oow, unexplained, seq, op)
 		}
 	}
 
@@ -225,7 +249,8 @@ func TestVerifC19(t *testing.T) {
 			seq++
 			db = memdb.New()
 			ci = nil
-			spec = &c19Spec{w: w, must: map[uint64]bool{}, saltOf: map[uint64]byte{}, coherent: true}
+			spec = &c19Spec{w: w, must: map[uint64]bool{}, saltOf: map[uint64]byte{}, coherent: true,
+				belowGap: map[uint64]bool{}, oow: map[uint64]bool{}, stragglers: map[uint64]bool{}, written: map[uint64]bool{}}
 			err := open(w)
 			check(l, err, false, false)
 		case len(f) == 2 && f[0] == "restart":
@@ -241,6 +266,9 @@ func TestVerifC19(t *testing.T) {
 			err := open(w)
 			spec.w = w
 			spec.filter()
+			if spec.hasLast && w != 0 && spec.last > w {
+				spec.stragglers[spec.last-w] = true
+			}
 			check(l, err, false, false)
 			r.Count("restart")
 		case len(f) == 3 && (f[0] == "accept" || f[0] == "save" || f[0] == "q"):
@@ -300,18 +328,27 @@ func TestVerifC19(t *testing.T) {
 					_, err := ci.GetBlockIDAtHeight(ctx, h-spec.w)
 					missing = errors.Is(err, database.ErrNotFound)
 				}
+				gapNow := false
 				if spec.hasLast {
 					if h != spec.last+1 {
-						spec.gapSeen = true
+						spec.gapSeen, gapNow = true, true
 						r.Count("accept-gap")
 					} else {
 						r.Count("accept-next")
 					}
 				} else if spec.stored {
-					spec.gapSeen = true
+					spec.gapSeen, gapNow = true, true
 				}
 				err := ci.UpdateLastAccepted(ctx, b)
 				if err == nil {
+					if gapNow {
+						for x := range spec.written {
+							spec.belowGap[x] = true
+						}
+					}
+					spec.written[h] = true
+					delete(spec.belowGap, h)
+					delete(spec.oow, h)
 					spec.hasLast, spec.last, spec.stored = true, h, true
 					spec.must[h] = true
 					spec.filter()
@@ -322,13 +359,21 @@ func TestVerifC19(t *testing.T) {
 				}
 				check(l, err, true, missing)
 			} else {
-				if !spec.hasLast || h > spec.last || !c19InWindow(spec.w, spec.hasLast, spec.last, h) {
+				outside := !spec.hasLast || h > spec.last || !c19InWindow(spec.w, spec.hasLast, spec.last, h)
+				if outside {
 					spec.oowSave = true
 					r.Count("save-out-of-window")
 				}
 				err := ci.SaveHistorical(b)
 				if err == nil {
 					spec.stored = true
+					spec.written[h] = true
+					delete(spec.belowGap, h)
+					if outside {
+						spec.oow[h] = true
+					} else {
+						delete(spec.oow, h)
+					}
 					if c19InWindow(spec.w, spec.hasLast, spec.last, h) {
 						spec.must[h] = true
 					}
